@@ -895,7 +895,9 @@ func (w *world) oneCase(c mCase, b *binding, variant int) {
 			return
 		}
 	}
-	if honestForA && c.Pending && c.M.PrefixOK && !handed {
+	// oracle first (whatever the model says): the honest block of a pending request passes the hasher,
+	// and with the right prefix it comes back under the requested CID
+	if honestForA && c.Pending && (!accepted || (c.M.PrefixOK && !handed)) {
 		rep.Violate("C10/served-block-rejected", fmt.Sprintf("%v: honest block for the pending request rejected: %v", a, serr), replay)
 		return
 	}
@@ -904,6 +906,10 @@ func (w *world) oneCase(c mCase, b *binding, variant int) {
 		harmless := accepted && fs != nil && !isEmpty(fs.reals[0]) && carriesCommitted // filled with the committed data
 		if harmless {
 			rep.Count("cases_real_accepts_identical_content_of_other_id", 1)
+		} else if c.PopBefore && c.Accepted && !accepted && !carriesCommitted {
+			// the model accepts these bytes only through the "already populated" shortcut (known finding);
+			// a real hasher that refuses them is stricter than the model, which the property welcomes
+			rep.Count("cases_real_stricter_than_populated_shortcut", 1)
 		} else {
 			rep.Inconclusivef("drift: case %+v on %v: model accepted=%v, real err=%v", c, a, c.Accepted, serr)
 		}
